@@ -804,6 +804,12 @@ def exemplars(tname):
 
 
 _PATTERN_INVALID = {
+    'smufl-accidental-glyph-name': ['noteheadBlack'],
+    'smufl-coda-glyph-name': ['noteheadBlack'],
+    'smufl-lyrics-glyph-name': ['noteheadBlack'],
+    'smufl-pictogram-glyph-name': ['noteheadBlack'],
+    'smufl-segno-glyph-name': ['noteheadBlack'],
+    'smufl-wavy-line-glyph-name': ['noteheadBlack'],
     'color': ['red', '#12'],
     'yyyy-mm-dd': ['20-1-1'],
     'time-only': ['a,b'],
@@ -987,3 +993,26 @@ if __name__ == '__main__':
     big = sorted(MODELS.values(), key=lambda m: -m.nstates)[:5]
     for m in big:
         print(m.name, m.nstates, len(m.alpha))
+
+
+def derived_type_pairs():
+    """(derived, base) for every simple type that restricts another named simple type of the schema."""
+    out = []
+    for n, st in sorted(_stypes.items()):
+        r = st.find(XS + 'restriction')
+        if r is not None and r.get('base') in _stypes:
+            out.append((n, r.get('base')))
+    return out
+
+
+def positions_of_type(t):
+    """Where a simple type is used: ('value', element) / ('attr', element, attribute)."""
+    out = []
+    for e in ALL_ELEMENTS:
+        et = ELEM_TYPE[e]
+        if type_kind(et) == 'simple' and simple_content_type(et) == t:
+            out.append(('value', e))
+        for a, d in attributes_of_element(e).items():
+            if d['type'] == t and not (a.startswith('xlink:') or a in ('xml:space', 'name', 'source', 'xml:lang')):
+                out.append(('attr', e, a))
+    return out
